@@ -22,8 +22,15 @@ func c14WipeEmptyNamespace(r *mon.Run) {
 		name          string
 		localIdentity bool // T has its own identity (so only the bug namespace is empty)
 		localBug      bool // T has a bug of its own (control: no namespace is empty)
+		remote        string
 	}
-	for _, v := range []variant{{"no-local-bug", true, false}, {"nothing-local", false, false}, {"control-with-local-bug", true, true}} {
+	for _, v := range []variant{
+		{"no-local-bug", true, false, "origin"}, {"nothing-local", false, false, "origin"}, {"control-with-local-bug", true, true, "origin"},
+		// the same with remote names that are not one plain word (the keys of the variants above are unchanged)
+		{"no-local-bug:remote-name=slash", true, false, "team/alice"}, {"nothing-local:remote-name=multi-slash", false, false, "a/b/c"},
+		{"nothing-local:remote-name=ns-word", false, false, "bugs"}, {"no-local-bug:remote-name=ns-word", true, false, "identities"},
+		{"no-local-bug:remote-name=dot+dash", true, false, "my.up-stream"},
+	} {
 		func() {
 			dir := world.ScratchDir("c14-empty-")
 			defer os.RemoveAll(dir)
@@ -41,7 +48,7 @@ func c14WipeEmptyNamespace(r *mon.Run) {
 			defer origin.Repo.Close()
 			defer R3.Repo.Close()
 			for _, rep := range []*world.Replica{T, R3} {
-				if err := rep.Tested.AddRemote("origin", origin.Tested.GetLocalRemote()); err != nil {
+				if err := rep.Tested.AddRemote(v.remote, origin.Tested.GetLocalRemote()); err != nil {
 					r.Inconclusive("wipe empty namespace: " + err.Error())
 					return
 				}
@@ -56,7 +63,7 @@ func c14WipeEmptyNamespace(r *mon.Run) {
 					return
 				}
 			}
-			if err := R3.Push("origin"); err != nil {
+			if err := R3.Push(v.remote); err != nil {
 				r.Inconclusive("wipe empty namespace: " + err.Error())
 				return
 			}
@@ -73,11 +80,11 @@ func c14WipeEmptyNamespace(r *mon.Run) {
 					return
 				}
 			}
-			if err := T.Fetch("origin"); err != nil {
+			if err := T.Fetch(v.remote); err != nil {
 				r.Inconclusive("wipe empty namespace: fetch: " + err.Error())
 				return
 			}
-			before, _ := gitraw.RefTable(T.Repo, "refs/remotes/origin/")
+			before, _ := gitraw.RefTable(T.Repo, "refs/remotes/"+v.remote+"/")
 			if len(before) < 3 {
 				r.Inconclusive(fmt.Sprintf("wipe empty namespace: only %d remote-tracking refs after the fetch", len(before)))
 				return
@@ -94,7 +101,7 @@ func c14WipeEmptyNamespace(r *mon.Run) {
 			defer nrep.Repo.Close()
 			r.Case("wipe-empty-namespace/"+v.name, true)
 			r.Count("wipe_with_empty_namespace_runs", 1)
-			cp := map[string]any{"kind": "wipe-empty-namespace", "variant": v.name}
+			cp := map[string]any{"kind": "wipe-empty-namespace", "variant": v.name, "remote": v.remote}
 			if runErr != nil {
 				r.Violation("wipe:empty-namespace:command-failed:"+v.name, fmt.Sprintf("git-bug wipe failed: %v: %s", runErr, strings.TrimSpace(string(out))), cp)
 				return
@@ -106,11 +113,10 @@ func c14WipeEmptyNamespace(r *mon.Run) {
 						r.Violation("wipe:empty-namespace:ref-left:"+cls+":"+v.name, "after git-bug wipe the ref "+ref+" is still there", cp)
 					}
 				}
-				if strings.HasPrefix(ref, "refs/remotes/") && (strings.Contains(ref, "/bugs/") || strings.Contains(ref, "/identities/")) {
-					ns := "bugs"
-					if strings.Contains(ref, "/identities/") {
-						ns = "identities"
-					}
+				// refs/remotes/<remote>/<namespace>/<id>: the namespace is the last path element but one (the remote's name may
+				// hold '/' and namespace words)
+				if el := strings.Split(ref, "/"); strings.HasPrefix(ref, "refs/remotes/") && len(el) >= 5 && (el[len(el)-2] == "bugs" || el[len(el)-2] == "identities") {
+					ns := el[len(el)-2]
 					r.Violation("wipe:empty-namespace:ref-left:refs/remotes/*/"+ns+":"+v.name, fmt.Sprintf("after git-bug wipe the remote-tracking ref %s of a fetched, never merged entity is still there (%d such refs before the wipe): the next merge brings the entity back", ref, len(before)), cp)
 				}
 			}
